@@ -3,7 +3,7 @@
 # in the scratch worktree /tmp/seed-<PROP>: (1) builds with the change, (2) baseline suite passes with the change,
 # (3) demo fails with the change, (4) demo passes without it. Prints CONFIRMED or the failing step.
 export GOFLAGS=-mod=mod GOPROXY=off GOSUMDB=off GOTOOLCHAIN=local
-P=$1; K=$2; WT=/tmp/seed-$P; D=/tmp/seedwork-$P/$K
+P=$1; K=$2; R=${SEEDROUND:-}; WT=/tmp/seed$R-$P; D=/tmp/seedwork$R-$P/$K
 git -C $WT checkout -q -- . && git -C $WT clean -qfd
 ( $D/run.sh > $D/confirm_pristine.txt 2>&1 ); rc0=$?
 git -C $WT apply $D/patch.diff || { echo "$P/$K: patch does not apply"; exit 1; }
